@@ -7,7 +7,8 @@ self-test of the binding (corrupted / reordered / dropped events must be rejecte
 """
 import sys, os, random, json, time
 sys.path.insert(0, os.path.join(os.path.dirname(os.path.abspath(__file__)), "..", "lib"))
-import common, tlc, pipe, forests, build
+import common, tlc, pipe, forests, build, pipecheck
+from pipecheck import run_mc, replay
 
 ORIGINAL = {"FixupOrder": '"number"', "BusyRead": '"second"', "PruneOrder": '"after"'}
 
@@ -41,33 +42,6 @@ def mc_plan(tier, rng):
         for f in forests.all_forests(4):
             plan.append((f, forests.min_sbnd(f), 3, rng.choice([1, 2, 3]), rng.choice([1, 2]), 2, False))
     return plan
-
-
-def run_mc(ck, plan, timeout):
-    wd = os.path.join(ck.dir, "mc")
-    tlc.stage(wd)
-
-    def one(a):
-        i, (f, sb, P, ps, rl, ms, live) = a
-        r = tlc.pipe_mc(wd, "m%d" % i, f, sb, P, ps, rl, ms, liveness=live, timeout=timeout)
-        return a, r
-    unfinished = 0
-    for (i, item), r in common.pmap(one, list(enumerate(plan))):
-        f, sb, P, ps, rl, ms, live = item
-        key = "mc:%s:%s:P%d:w%d:r%d:m%d" % (f, sb, P, ps, rl, ms)
-        ck.model(r["distinct"], r["generated"])
-        if r["timeout"]:
-            unfinished += 1
-            continue
-        ck.case(key, sample={"forest": f, "sbnd": sb, "P": P, "panel": ps, "relax": rl, "maxsuper": ms,
-                             "distinct_states": r["distinct"], "liveness": live} if i < 2 else None)
-        if not r["ok"]:
-            what = r["violated"] or r["errors"][:2]
-            open(os.path.join(ck.dir, "mc_fail_%d.out" % i), "w").write(r["out"][-20000:])
-            ck.violation(key, "model SluPipe violates %s for forest %s (P=%d, panel %d, relax %d, maxsuper %d)" % (what, f, P, ps, rl, ms),
-                         {"tlc_output": os.path.join(ck.dir, "mc_fail_%d.out" % i)})
-    ck.notes["mc_runs"] = len(plan)
-    ck.notes["mc_unfinished_within_timeout"] = unfinished
 
 
 def model_sensitivity(ck):
@@ -159,35 +133,13 @@ def main(tier):
     run_mc(ck, plan, timeout=600 if tier == "quick" else 3000)
     sens_ok = model_sensitivity(ck)
     jobs, out = trace_jobs(ck, tier, rng)
-    status = pipe.run_jobs(jobs, out)
-    results = pipe.validate(jobs, status, os.path.join(ck.dir, "tlc"))
-    nev = 0
-    for j, r in results:
-        st = status.get(j["id"], "missing")
-        key = "trace:" + pipe.job_line({k: v for k, v in j.items() if k not in ("out", "id")})
-        if st != "ok":
-            ck.case(key)
-            ck.violation(key, "real factorization did not complete normally (%s): %s" % (st, pipe.job_line(j)), {"job": j})
-            continue
-        cfg, res, nl, kinds = pipe.trace_info(j["out"])
-        if cfg.get("overflow"):
-            continue    # truncated log: inconclusive, not counted
-        nev += nl
-        ck.case(key, sample={"job": pipe.job_line({k: v for k, v in j.items() if k != "out"}), "events": nl,
-                             "etree": cfg["etree"][:12]} if len(ck.cov["samples"]) < 4 else None)
-        if r["ok"]:
-            ck.traces()
-            try:
-                os.remove(j["out"])
-            except OSError:
-                pass
-        else:
-            ck.violation(key, "trace of the real code rejected: " + pipe.explain(r, j["out"]) + " | " + pipe.job_line(j),
-                         {"job": j, "trace": j["out"], "revalidate": "python3 /verif/bin/check C03 --replay " + j["out"]})
-    ck.notes["trace_events_validated"] = nev
+    pipecheck.run_traces(ck, jobs, out)
     # the self-test needs a trace that still exists: record one more
     stjobs = [dict(jobs[-1], id="st", out=os.path.join(out, "st.ndjson"))]
     pipe.run_jobs(stjobs, out, shards=1)
+    for j in stjobs:
+        if os.path.exists(j["out"]):
+            pipe.prepare(j["out"])
     bind_ok = selftest_binding(ck, stjobs, out)
     rc = ck.finish()
     if not (sens_ok and bind_ok):
